@@ -586,6 +586,10 @@ func (e *Enc) encodeOnce() (err error) {
 		}
 	}
 	e.assumeAxioms(entry)
+	if e.fc != nil && e.fc.NoPanic {
+		// anchor of the group: panic sites added later fail a group that is already claimed
+		e.oblige("safe:nopanic", "declared", "", "true", "true", fn.Pos(), "nopanic")
+	}
 
 	for _, b := range e.order {
 		e.encodeBlock(b, entry)
